@@ -41,6 +41,8 @@
 (define-fun inInt ((x Int)) Bool (and (<= MININT x) (<= x MAXINT)))
 (define-fun wrap64 ((x Int)) Int (- (mod (+ x 9223372036854775808) 18446744073709551616) 9223372036854775808))
 ; Go truncated division / remainder on mathematical ints
+; Go's wrapping int multiplication (opaque: only congruence is used)
+(declare-fun wmul (Int Int) Int)
 (define-fun godiv ((a Int) (b Int)) Int (ite (>= a 0) (div a b) (- (div (- a) b))))
 (define-fun gomod ((a Int) (b Int)) Int (- a (* b (godiv a b))))
 
